@@ -124,6 +124,60 @@ func gen(t *rapid.T) Case {
 			shapes = append(shapes, "same_simple_superclass_name_through_different_on_demand_imports")
 		}
 	}
+	// eighth seed batch: overloads (and methods whose names end in digits) at places whose numbers read alike when they
+	// are written one behind the other without a separator: `total` on line 4 with its name at column 18 and on line 41
+	// at column 8 ("4"+"18" = "41"+"8"); `run1` on line 23 and `run12` on line 3 ("run1"+"23" = "run12"+"3"). A table
+	// keyed by name, line and column must still hold an entry for each.
+	if rapid.IntRange(0, 7).Draw(t, "placesThatReadAlike") == 7 {
+		prefix, ok := "", false
+		for _, u := range p.Units {
+			tail := strings.ReplaceAll(u.Pkg, ".", "/") + "/" + u.Name + ".java"
+			if u.Role == "main" && u.Pkg != "" && strings.HasSuffix(u.Path, tail) {
+				prefix, ok = strings.TrimSuffix(u.Path, tail), true
+				break
+			}
+		}
+		if ok {
+			a := rapid.IntRange(4, 9).Draw(t, "alikeLine")
+			x := rapid.IntRange(1, 9).Draw(t, "alikeDigit")
+			y := rapid.IntRange(4, 9).Draw(t, "alikeColumn")
+			lineB := 10*a + x
+			lines := map[int]string{1: "package wf.grid;", 2: "public class Grid {"}
+			var funcs []jgen.FuncTruth
+			put := func(line, col int, name string, params []jgen.Param) {
+				var ps []string
+				for _, q := range params {
+					ps = append(ps, q.Type+" "+q.Name)
+				}
+				lines[line] = strings.Repeat(" ", col-4) + "int " + name + "(" + strings.Join(ps, ", ") + ") { return 0; }"
+				funcs = append(funcs, jgen.FuncTruth{Name: name, ReturnType: "int", Params: params, DeclLine: line, NameLine: line, NameCol: col, EndLine: line})
+			}
+			// (a) line and column
+			put(a, 10*x+y, "total", []jgen.Param{{Type: "int", Name: "first"}})
+			put(lineB, y, "total", []jgen.Param{{Type: "int", Name: "first"}, {Type: "int", Name: "second"}})
+			// (b) name and line: run1 on line 10*b+c, run1c on line b ... with b = 3 and c free of a's lines
+			c2 := rapid.IntRange(0, 9).Draw(t, "alikeNameDigit")
+			l1 := 30 + c2
+			if lines[l1] == "" && lines[3] == "" {
+				put(3, 8, fmt.Sprintf("run1%d", c2), nil)
+				put(l1, 8, "run1", nil)
+			}
+			last := lineB
+			if l1 > last {
+				last = l1
+			}
+			var sb strings.Builder
+			for l := 1; l <= last; l++ {
+				sb.WriteString(lines[l] + "\n")
+			}
+			sb.WriteString("}\n")
+			path := prefix + "wf/grid/Grid.java"
+			n := len(p.Units)
+			p.Files = append(p.Files[:n:n], append([]jgen.File{{Path: path, Text: sb.String()}}, p.Files[n:]...)...)
+			p.Units = append(p.Units, jgen.UnitTruth{Path: path, Role: "main", Pkg: "wf.grid", Name: "Grid", Kind: "Class", Funcs: funcs})
+			shapes = append(shapes, "members_at_places_whose_numbers_read_alike")
+		}
+	}
 	// sixth seed batch: one fully qualified name declared by two files (the same class in two modules of a
 	// multi-module build): each declaration has its own entry
 	if rapid.IntRange(0, 5).Draw(t, "twinDeclaration") == 5 {
